@@ -160,3 +160,119 @@ def _mk_additive(d, a, b):
 
 for _d, _a, _b in ((1, 1, 0), (1, 2, 1), (2, 1, 0), (2, 2, 0), (3, 1, 0)):
     _mk_additive(_d, _a, _b)
+
+
+def _mk_shape_transform(kind):
+    @proof(f"C09.shape[{kind}]", "C09", funcs=["shape.DefinedShape.move", "shape.DefinedShape.scale", "shape.DefinedShape.rotate"], props=["C09", "C11"])
+    def _(h):
+        """shape-level transformations reach every boundary curve exactly once and return the same object (Simple,
+        Connected with a hole, Disjoint with a hole component + a simple one; all coordinates and parameters symbolic)."""
+        import shapepy.polygon as P
+        from .common import shape_view, shape_view_eq
+        from shapepy.jordancurve import JordanCurve as JC
+
+        tris = [[h.point(f"t{k}_{i}", "F") for i in range(3)] for k in range(3)]
+        sims = [SimpleShape(JC.from_vertices(t)) for t in tris]
+        if kind == "Simple":
+            shape = sims[0]
+            used = tris[:1]
+        elif kind == "Connected":
+            shape = object.__new__(ConnectedShape)
+            shape._ConnectedShape__subshapes = (sims[0], sims[1])
+            used = tris[:2]
+        else:
+            conn = object.__new__(ConnectedShape)
+            conn._ConnectedShape__subshapes = (sims[0], sims[1])
+            shape = object.__new__(DisjointShape)
+            shape._DisjointShape__subshapes = (conn, sims[2])
+            used = tris
+        dx, dy, sx, sy = h.reals("dx dy sx sy", "F")
+        ang = h.real("ang", "F")
+        cur = [list(t) for t in used]
+
+        def want():
+            return tuple(tuple((t[i], t[(i + 1) % 3]) for i in range(3)) for t in cur)
+
+        r = shape.move(dx, dy)
+        cur = [[spec.affine("move", (dx, dy), p) for p in t] for t in cur]
+        h.ensure("move-reaches-every-curve-once-and-returns-self", AND(r is shape, shape_view_eq(shape_view(shape), want())))
+        r = shape.scale(sx, sy)
+        cur = [[spec.affine("scale", (sx, sy), p) for p in t] for t in cur]
+        h.ensure("scale-reaches-every-curve-once-and-returns-self", AND(r is shape, shape_view_eq(shape_view(shape), want())))
+        r = shape.rotate(ang)
+        if h.sym:
+            c, s_ = P.np.cos(ang), P.np.sin(ang)
+        else:
+            import numpy as np
+
+            c, s_ = np.cos(ang), np.sin(ang)
+        cur = [[spec.affine("rotate", (c, s_), p) for p in t] for t in cur]
+        h.ensure("rotate-reaches-every-curve-once-and-returns-self", AND(r is shape, shape_view_eq(shape_view(shape), want())))
+        before = shape_view(shape)
+        for op, args in (("move", ("a", 1)), ("scale", (2, "x")), ("rotate", ("x",))):
+            _, e = h.call(getattr(shape, op), *args)
+            h.ensure("rejected-arguments-leave-shape-unchanged", AND(e is not None, shape_view_eq(shape_view(shape), before)))
+
+
+for _k in ("Simple", "Connected", "Disjoint"):
+    _mk_shape_transform(_k)
+
+
+def _mk_copy_shape(kind):
+    @proof(f"C08.copy-shape[{kind}]", "C08", funcs=["shape.DefinedShape.__copy__", "shape.DefinedShape.__deepcopy__", "shape.SimpleShape.__init__", "shape.SimpleShape.__invert__",
+                                                   "shape.DefinedShape.__invert__", "shape.ConnectedShape.__invert__"], abstract=True, props=["C08", "C05", "C06"])
+    def _(h):
+        """copy / deepcopy / ~ of a shape on symbolic triangles (nesting relation and areas through stubs): the result
+        holds the same (resp. reversed) boundary curves, shares no mutable object with the operand, and the operand is
+        framed; mutating the copy leaves the operand."""
+        if not h.sym:
+            return
+        import copy as _c
+        from .common import disjoint_heaps, frame_unchanged, snapshot, view, view_eq
+        from shapepy.jordancurve import JordanCurve as JC
+
+        eng = Engine.cur
+        tris = [[h.point(f"t{k}_{i}", "F") for i in range(3)] for k in range(3)]
+        sims = [SimpleShape(JC.from_vertices(t)) for t in tris]
+        if kind == "Simple":
+            shape, used = sims[0], tris[:1]
+        elif kind == "Connected":
+            shape = object.__new__(ConnectedShape)
+            shape._ConnectedShape__subshapes = (sims[0], sims[1])
+            used = tris[:2]
+        else:
+            shape = object.__new__(DisjointShape)
+            shape._DisjointShape__subshapes = (sims[0], sims[2])
+            used = [tris[0], tris[2]]
+        nested = kind == "Connected"
+        areas = {}
+
+        def fl(obj):
+            if id(obj) not in areas:
+                v = eng.fresh_real("area", "F")
+                eng.assume(v.t != 0)
+                areas[id(obj)] = v
+            return areas[id(obj)]
+
+        keys = lambda sh: sorted(tuple((p[0].t.sexpr(), p[1].t.sexpr()) for seg in view(j) for p in seg) for j in sh.jordans)
+        want = keys(shape)
+        want_rev = sorted(tuple((p[0].t.sexpr(), p[1].t.sexpr()) for seg in [tuple(s[::-1]) for s in view(j)[::-1]] for p in seg) for j in shape.jordans)
+        snap = snapshot(shape)
+        with h.stubs({(DefinedShape, "__float__"): fl, (ConnectedShape, "__float__"): fl, (DisjointShape, "__float__"): fl, (JC, "__float__"): fl,
+                      (DefinedShape, "__contains__"): lambda s_, what: nested}):
+            for name, fn in (("copy", _c.copy), ("deepcopy", _c.deepcopy)):
+                r = fn(shape)
+                h.ensure(f"{name}-holds-the-same-boundary-curves", keys(r) == want)
+                h.ensure(f"{name}-shares-no-mutable-object", disjoint_heaps([r], [shape]))
+                h.ensure(f"{name}-frames-the-operand", frame_unchanged(snap))
+                dx, dy = h.reals("dx dy", "F")
+                r.move(dx, dy)
+                h.ensure(f"{name}-moving-the-copy-leaves-the-operand", keys(shape) == want)
+            inv = ~shape
+            h.ensure("complement-holds-every-curve-reversed", keys(inv) == want_rev)
+            h.ensure("complement-shares-no-mutable-object", disjoint_heaps([inv], [shape]))
+            h.ensure("complement-frames-the-operand", AND(frame_unchanged(snap), keys(shape) == want))
+
+
+for _k in ("Simple", "Connected", "Disjoint"):
+    _mk_copy_shape(_k)
